@@ -45,6 +45,10 @@ thread_local! { static OPER: std::cell::Cell<(u8, u8)> = const { std::cell::Cell
 fn ea(a: KV) -> KV { OPER.with(|c| { let (x, y) = c.get(); c.set((x + 1, y)); KV { key: a.key, id: a.id + 100 * x } }) }
 fn eb(b: KV) -> KV { OPER.with(|c| { let (x, y) = c.get(); c.set((x, y + 1)); KV { key: b.key, id: b.id + 100 * y } }) }
 fn obs2(f: impl FnOnce() -> KV) -> String { OPER.with(|c| c.set((0, 0))); cu(|| { let v = f(); format!("{:?} operand evaluations={:?}", v, OPER.with(|c| c.get())) }) }
+fn key_rev(a: &KV) -> u8 { 255 - a.key }
+fn cmp_rev(a: &KV, b: &KV) -> Ordering { b.key.cmp(&a.key) }
+fn pick_key() -> fn(&KV) -> u8 { OPER.with(|c| { let (x, y) = c.get(); c.set((x + 1, y)); if x == 0 { key_of } else { key_rev } }) }
+fn pick_cmp() -> fn(&KV, &KV) -> Ordering { OPER.with(|c| { let (x, y) = c.get(); c.set((x + 1, y)); if x == 0 { cmp_kv } else { cmp_rev } }) }
 fn kvs() -> Vec<KV> { let mut v = Vec::new(); let mut id = 0; for key in 0..3u8 { for _ in 0..2 { v.push(KV { key, id }); id += 1; } } v }
 '''
 
@@ -130,6 +134,15 @@ def opt_result_programs():
         k2 = k.replace("(a, b", "(ea(a), eb(b)")
         s2 = st.replace("(a, b", "(ea(a), eb(b)")
         P.append((name + " with operand expressions", [f"for a in kvs() {{ for b in kvs() {{ if a.id == b.id {{ continue; }} out.push((format!(\"{name} on expressions yielding {{:?}}, {{:?}}\", a, b), obs2(|| {k2}), obs2(|| {s2}))); }} }}"]))
+    # a function-valued key / comparator *expression* is evaluated once, like the argument of the std function
+    # (a second evaluation is counted and yields the reversed key / comparator)
+    for name, k, st in [
+        ("min_by_key!(function-valued expression)", "konst::min_by_key!(a, b, pick_key())", "std::cmp::min_by_key(a, b, pick_key())"),
+        ("max_by_key!(function-valued expression)", "konst::max_by_key!(a, b, pick_key())", "std::cmp::max_by_key(a, b, pick_key())"),
+        ("min_by!(function-valued expression)", "konst::min_by!(a, b, pick_cmp())", "std::cmp::min_by(a, b, pick_cmp())"),
+        ("max_by!(function-valued expression)", "konst::max_by!(a, b, pick_cmp())", "std::cmp::max_by(a, b, pick_cmp())"),
+    ]:
+        P.append((name, [f"for a in kvs() {{ for b in kvs() {{ if a.id == b.id {{ continue; }} out.push((format!(\"{name} on {{:?}}, {{:?}}\", a, b), obs2(|| {k}), obs2(|| {st}))); }} }}"]))
     # (operand *evaluation order* of min!/max! is deliberately not compared: the statement speaks of pairs of values;
     #  the pinned max_by_key! evaluates its operands right to left)
     # min!/max! on primitives (u8 all pairs of a small set)
